@@ -108,16 +108,24 @@ PROPS["C26"] = dict(
           "single-PDV P-DATA-TF within max_pdu_length, only finish marks last, payloads concatenate to the bytes "
           "accepted, write returns the bytes taken and makes progress, transport errors are propagated",
           expected_verified=11),
+        V("C26.pdata_reader", "c26_pdata_reader.vrs",
+          "<PDataReader as Read>::read: for any segmentation of the transport, a call either serves buffered payload, or returns 0 after "
+          "the last fragment, or receives exactly the first PDU of the logical stream (a P-DATA PDU), appends the data of its values in "
+          "order, records the last flag, and leaves exactly the rest of the stream for the next receive; the receive loop terminates",
+          expected_verified=7),
     ],
     assumptions=[
+        "reader: read_pdu represented by the contract first_pdu with the assumed prefix-stability axiom (as C27); BufReader treated as transparent; "
+        "VecDeque<u8> as a byte queue; consuming `for` over the values rewritten to an index loop; presentation-context mismatch only logs (warn!) and is dropped",
         "precondition 6 <= max_pdu_length <= 0xFFFF_FFF9 at PDataWriter::new (callers pass the negotiated length; not verified)",
         "64-bit usize; slices are at most isize::MAX bytes",
         "one write_all call = one PDU handed to the transport (std::io::Write::write_all contract assumed)",
         "`impl Write for PDataWriter`::write verified as an inherent method (Verus rejects requires on trait impls)",
         "Drop for PDataWriter discards finish_impl's result by design; the public finish() propagates it",
     ],
-    uncovered=["AsyncPDataWriter (Poll/Pin/Context; no async support in either verifier)",
-               "PDataReader (BytesMut, read_pdu)"],
+    uncovered=["AsyncPDataWriter (Poll/Pin/Context; no async support in either verifier) — by reading, its poll_write has the same "
+               "exact-fill Ok(0) behaviour that was fixed in the synchronous writer (S7); not repaired because no check can decide it",
+               "asynchronous P-DATA reader"],
 )
 
 # ----------------------------------------------------------------------- C08
@@ -466,7 +474,7 @@ PROPS["C16"] = dict(
 # ----------------------------------------------------------------------- C20
 _RLE = "transfer-syntax-registry/src/adapters/rle_lossless.rs"
 PROPS["C20"] = dict(
-    level="exploration",
+    level="exploration", claimed=False,
     units=[
         N("C20.rle",
           "cp /repo/Cargo.lock /verif/witness/Cargo.lock && CARGO_TARGET_DIR=/verif/build/witness cargo run --offline -q --release "
@@ -563,4 +571,64 @@ PROPS["C05"] = dict(
     uncovered=["file opening and byte-source reading, file meta group reading", "eager / lazy / collector data set readers (token machines)",
                "DICOM JSON deserialisation", "PDU body decoding (per-type, after the framing head)", "pixel data decoders (JPEG, RLE on malformed fragments, deflate)",
                "dump", "attribute selector, date-time and range text parsers", "hang-freedom (termination) in general"],
+)
+
+# ----------------------------------------------------------------------- C31
+PROPS["C31"] = dict(
+    level="exploration", claimed=False,
+    units=[
+        N("C31.command_length",
+          "cp /repo/Cargo.lock /verif/witness/Cargo.lock && CARGO_TARGET_DIR=/verif/build/witness cargo run --offline -q --release "
+          "--manifest-path /verif/witness/Cargo.toml --bin c31_command_length 2>&1 | grep -E '^(WITNESS|EXHAUSTIVE|error)' | tail -12",
+          "InMemDicomObject::command_from_element_iter on enumerated element lists, written with the real Implicit VR LE writer: the "
+          "recorded (0000,0000) value equals the bytes of group 0000 that follow it in the written stream",
+          bound="1377 element lists: up to 3 elements drawn (in both orders, duplicate tags included) from 16 candidates (UI/AE texts of "
+                "length 0-17, US, AT, a stale group length, a non-command element) — native enumeration, NOT a deductive result",
+          fns=[("object/src/mem.rs", "command_from_iter_with_dict")]),
+        V("C31.even_len", "c31_even_len.vrs", "even_len (object crate copy) == next even number, for every defined length", expected_verified=1),
+    ],
+    assumptions=["the contract technique does not reach command_from_iter_with_dict (BTreeMap, iterator closures mutating captured state, dictionary-typed "
+                 "elements: outside Verus' subset; the object crate cannot be processed by Kani within budget); the main unit is a labelled bounded stand-in",
+                 "the oracle is the real Implicit VR LE writer of the same library (its element layout is proved in C03/C04)"],
+    uncovered=["element lists beyond the bound", "sequences inside command sets"],
+)
+
+# ----------------------------------------------------------------------- C17 (auxiliary, not claimed)
+PROPS["C17"] = dict(
+    level="exploration", claimed=False,
+    units=[
+        N("C17.person_name",
+          "cp /repo/Cargo.lock /verif/witness/Cargo.lock && CARGO_TARGET_DIR=/verif/build/witness cargo run --offline -q --release "
+          "--manifest-path /verif/witness/Cargo.toml --bin c17_person_name 2>&1 | grep -E '^(WITNESS|EXHAUSTIVE|error)' | tail -12",
+          "PersonName built from up to five components over a 6-value alphabet: to_dicom_string then from_text gives the same components; "
+          "trailing empty components omitted, leading ones kept",
+          bound="7^5 = 16807 names — native enumeration, NOT a deductive result",
+          fns=[("core/src/value/person_name.rs", "to_dicom_string"), ("core/src/value/person_name.rs", "from_text")]),
+    ],
+    assumptions=["String / str::split / Peekable iterators: outside Verus' subset and beyond the CBMC budget"],
+    uncovered=[],
+)
+
+# ----------------------------------------------------------------------- C27
+PROPS["C27"] = dict(
+    level="proof",
+    units=[
+        V("C27.read_pdu_from_wire", "c27_read_pdu_from_wire.vrs",
+          "read_pdu_from_wire (synchronous receiver): for ANY segmentation of the transport (each fill_buf returns an arbitrary non-empty "
+          "prefix of what is left), the PDU returned is the first PDU of the logical stream read_buffer ++ remaining and exactly the rest of "
+          "that stream is left for the next receive; the loop terminates (returns a PDU or an error) — by induction over the loop",
+          expected_verified=5),
+        V("C27.read_pdu_head", "c25_read_pdu_head.vrs",
+          "the callee's framing: every strict prefix of header + declared content reads as incomplete (shared with C25)", expected_verified=6),
+    ],
+    assumptions=[
+        "read_pdu is represented by the contract first_pdu (decoded PDU + size, None when incomplete); ASSUMED axiom: a complete PDU at the head of a byte "
+        "string is unaffected by the bytes that follow it (PS3.8 length-delimited PDUs); the framing head of read_pdu is proved in C25, the per-type decoding is not",
+        "`let mut reader = BufReader::new(reader)` is dropped in the verified text: a fresh BufReader that is completely consumed before being dropped neither "
+        "loses nor reorders bytes (std, assumed); fill_buf returns an arbitrary prefix, non-empty unless the stream ended",
+        "bytes::BytesMut advance/extend_from_slice and io::Cursor behave as documented",
+        "`let msg = loop { .. break pdu }` rewritten to a loop storing the value (Verus has no break-with-value)",
+    ],
+    uncovered=["read_pdu_from_wire_async (textually the same loop over tokio's read_buf; no async support in either verifier)",
+               "the association objects' receive() wrappers", "PDataReader::read (same loop shape inside the P-DATA reader)"],
 )
